@@ -4,14 +4,24 @@ C20 — in-stream table definitions govern the messages that follow them.
 Theorems: lean/BufrModel/Props/C20.lean (extraction inverts the NCEP layout, extended lookup, by-source
 Table D resolution equals the merged lookup, shape of `_fix_ncep_descriptors`).
 
-Generated streams: 1..3 definition messages in the NCEP layout (data category 11, template
+Generated streams: 1..4 definition messages in the NCEP layout (data category 11, template
 `103000 031001 000001 000002 000003 101000 031001 300004 105000 031001 300003 205064 101000 031001 000030`,
-encoded by the implementation's Encoder from the field strings) defining 1..12 elements of classes 48-63
-(random width, signed scale, signed reference, units numeric / CODE TABLE / FLAG TABLE / CCITT IA5; some
-redefine bundled or earlier in-stream elements) and 1..5 sequences 3-48-xxx..3-63-xxx over them (nesting,
-fixed / delayed replication, NCEP replication-only sequences; some redefine earlier in-stream sequences),
-followed by (or interleaved with) 1..4 data messages over those descriptors whose values come from the
-model's generate mode, plus one message over descriptors the definitions do not mention.
+encoded by the implementation's Encoder from the field strings) defining elements of classes 48-63 (random width,
+signed scale, signed reference, units numeric / CODE TABLE / FLAG TABLE / CCITT IA5) and sequences
+3-48-xxx..3-63-xxx over them (nesting, fixed / delayed replication, NCEP replication-only sequences), with data
+messages BETWEEN and after them (values from the model's generate mode) and one message over descriptors the
+definitions do not mention.  A later definition message (StreamGen.def_message) adds new ids, ONLY re-defines ids
+defined in stream before (other attributes / members, nothing new), does both, has exactly the shape (ids, lengths)
+of an earlier one, repeats an earlier one byte for byte, re-defines bundled ids, defines ids that a sequence of an
+earlier message already mentions (forward / complete), or is empty.  All messages of a stream use the same table
+versions; data messages prefer the ids the last definition message affected and reuse earlier section-3 templates.
+Every message must be decoded by the definitions in force at its position (later definition wins from there on).
+
+MODEL STREAM RUN: `tabledef-stream` = TableDef.specRun (lean/BufrModel/Msg/TableStream.lean) decodes the whole stream
+on the file tables, extracting and applying the definitions itself; compared message by message with what
+`generate_bufr_message` yields (plain and with compiled templates, cache sizes 1 / 2 / 16).  Theorems
+(Props/C20Stream.lean): each message is decoded with `extend files (definitions before it)`, later definition wins,
+and the cache model with generation-keyed invalidation (implRun) refines specRun.
 
 ORACLE (implementation only): the data messages decoded one by one by `Decoder(tables_root_dir=<scratch>)`
 after the process-global cache has been replaced by a fresh one, where <scratch> (under /tmp, unique per
@@ -50,11 +60,20 @@ META = dict(
          'tables extended in stream equals the one built against files that contain the entries, also with the '
          'by-source member resolution of TableD when no older sequence mentions a redefined id (C20_as_if_in_files, '
          'C20_by_source); _fix_ncep_descriptors is the identity on trees without member-less replications and gives a '
-         'replication-only sequence the descriptor that follows it (C20_fix_ncep).  Decoding of the following '
-         'messages is the coder model of C01 run on the extended tables.  Correspondence: generated definition/data '
-         'streams, layout variants and prepbufr.bufr, model vs implementation on entries, template trees, labels, '
-         'values, links; oracle: the implementation itself with the entries written into scratch table files.',
-    technique='Lean 4 theorems (induction over entry lists, template ids and descriptor trees) + checked '
+         'replication-only sequence the descriptor that follows it (C20_fix_ncep).  For an arbitrary stream of definition '
+         'and data messages every message is decoded against the files extended by all definitions before it, a later '
+         'definition of an id replacing the earlier one from that point on (C20_stream_each_message, '
+         'C20_stream_later_definition_wins), and the loop of generate_bufr_message with the table group cache, '
+         'invalidate/add_extra_entries and the compiled-template cache keyed by the generation of the extra entries '
+         'delivers exactly that (C20_stream_cache_refines; a count-based invalidation does not: '
+         'C20_stream_count_based_invalidation_differs).  Decoding itself is the coder model of C01 run on the '
+         'extended tables.  Correspondence: generated streams of 1..4 definition messages (new ids, redefinition-only, '
+         'same-shape, repeated, bundled ids, forward references, empty) with data messages between and after them, the '
+         'whole stream run by the model (specRun) vs generate_bufr_message with and without compiled templates; layout '
+         'variants and prepbufr.bufr; model vs implementation on entries, template trees, labels, values, links; '
+         'oracle: the implementation itself with the entries in force at the position of the message written into '
+         'scratch table files.',
+    technique='Lean 4 theorems (induction over entry lists, template ids, descriptor trees and streams; cache invariant) + checked '
               'model/implementation correspondence + file-based differential oracle on the implementation',
     note='Strings are modelled on ASCII; int() on ASCII digits/sign/underscore/whitespace; the fix gate '
          '(has_extra_entries) is process-global state and is reproduced by a flag.',
@@ -117,6 +136,10 @@ def fmt_int(rng, v, width):
 
 
 class StreamGen(object):
+    """Generator state of one stream: the definitions in force (`eb`, `ed`) after the definition messages
+    generated so far.  A definition message is generated in one of the MODES below; `expected()` is what the
+    process-global extra entries must be afterwards (later definition of an id replaces the earlier one)."""
+
     def __init__(self, rng, version, local):
         self.rng = rng
         self.version, self.local = version, local
@@ -127,51 +150,124 @@ class StreamGen(object):
         self.std_str = sorted(i for i, v in self.fb.items() if kind(v[1]) == 's' and 1 <= i // 1000 <= 30 and v[4] % 8 == 0 and v[4] <= 160)
         self.local_b = sorted(i for i in self.fb if i // 1000 >= 48) if local else []
         self.std_seq = [s for s in (301011, 301012, 301013, 301021, 301023, 301001, 301004) if s in self.fd]
+        # a small pool of bundled descriptors per stream: used as members / in data messages AND as targets of
+        # redefinitions, so that a bundled id is seen with its standard meaning before and its new one after
+        self.pool_num = rng.sample(self.std_num, 6)
+        self.pool_code = rng.sample(self.std_code, 2)
         self.eb = {}      # id -> [name, unit, scale, ref, width]   (current in-stream elements)
         self.ed = {}      # id -> [name, [member ids]]
         self.bare = set()     # replication-only sequences
         self.depth = {}
         self.quirks = False
+        self.pend_b = set()   # element ids mentioned by an in-stream sequence, defined by a LATER message
+        self.pend_d = set()   # sequence ids likewise
+        self.focus = None     # ids a data message should prefer (those the last definition message affects)
+        self.history = []     # [{'a', 'b': [(id, e)], 'd': [(sid, e)]}] per definition message
+        self.templates = []   # section 3 of the data messages so far
+
+    # -- helpers --------------------------------------------------------------------------------
+    def closure(self, ids):
+        seen = set()
+        todo = list(ids)
+        while todo:
+            i = todo.pop()
+            if i in seen:
+                continue
+            seen.add(i)
+            if i in self.ed:
+                todo.extend(self.ed[i][1])
+            elif i // 100000 == 3 and i in self.fd:
+                todo.extend(int(m) for m in self.fd[i][1])
+        return seen
+
+    def incomplete(self, i):
+        """a sequence that (transitively) mentions an id which no message has defined yet"""
+        pend = self.pend_b | self.pend_d
+        return bool(pend) and bool(self.closure([i]) & pend)
+
+    def fresh_element_id(self):
+        while True:
+            i = self.rng.randint(48, 63) * 1000 + self.rng.randint(0, 255)
+            if i != 63254 and i not in self.eb and i not in self.fb and i not in self.pend_b:
+                return i
+
+    def fresh_sequence_id(self):
+        while True:
+            i = 300000 + self.rng.randint(48, 63) * 1000 + self.rng.randint(0, 255)
+            if i not in self.ed and i not in self.fd and i not in self.pend_d:
+                return i
 
     # -- definitions ----------------------------------------------------------------------------
+    def new_attrs(self, old=None):
+        """[name, unit, scale, ref, width]; different from `old` in unit / scale / reference / width"""
+        rng = self.rng
+        while True:
+            k = rng.random()
+            if old is not None and k < 0.5:
+                # change one or two attributes only
+                _, unit, scale, ref, width = old
+                for what in rng.sample(['width', 'scale', 'ref', 'unit'], rng.randint(1, 2)):
+                    if what == 'width':
+                        width = 8 * rng.randint(1, 10) if unit == 'CCITT IA5' else rng.randint(1, 32)
+                    elif what == 'scale':
+                        scale = rng.randint(-3, 6)
+                    elif what == 'ref':
+                        ref = rng.choice([-1, 1]) * rng.randint(1, 2 ** rng.randint(1, 20))
+                    elif unit != 'CCITT IA5':
+                        unit = rng.choice(UNITS_NUM + ['CODE TABLE', 'FLAG TABLE'])
+            elif k < 0.6 or (old is not None and k < 0.8):
+                unit = rng.choice(UNITS_NUM)
+                width = rng.choice([rng.randint(1, 32), rng.randint(2, 16)])
+                scale = rng.randint(-3, 6)
+                ref = 0 if rng.random() < 0.3 else rng.choice([-1, 1]) * rng.randint(1, 2 ** rng.randint(1, 20))
+            elif k < 0.8 or (old is not None and k < 0.9):
+                unit = rng.choice(['CODE TABLE', 'CODE TABLE', 'FLAG TABLE'])
+                width = rng.randint(1, 16)
+                scale = rng.choice([0, 0, 0, 1, -1])
+                ref = rng.choice([0, 0, 0, 5, -5])
+            else:
+                unit = 'CCITT IA5'
+                width = 8 * rng.randint(1, 10)
+                scale, ref = 0, 0
+            if old is None or [unit, scale, ref, width] != list(old[1:5]):
+                break
+        quirky = rng.random() < 0.08
+        self.quirks = self.quirks or quirky
+        return [mk_name(rng, quirky), unit, scale, ref, width]
+
+    def std_target(self):
+        rng = self.rng
+        if rng.random() < 0.7:
+            return rng.choice(self.pool_num + self.pool_code)
+        return rng.choice(self.std_num + self.std_code)
+
     def new_element(self):
         rng = self.rng
         r = rng.random()
         if r < 0.10 and self.eb:
             i = rng.choice(sorted(self.eb))                     # redefine an in-stream element
         elif r < 0.22:
-            i = rng.choice(self.std_num + self.std_code)        # redefine a bundled element
+            i = self.std_target()                               # redefine a bundled element
         elif r < 0.30 and self.local_b:
             i = rng.choice(self.local_b)                        # redefine a local-table element
         else:
             i = rng.randint(48, 63) * 1000 + rng.randint(0, 255)
             if i == 63254:
                 i = 63253
-        k = rng.random()
-        if k < 0.6:
-            unit = rng.choice(UNITS_NUM)
-            width = rng.choice([rng.randint(1, 32), rng.randint(2, 16)])
-            scale = rng.randint(-3, 6)
-            ref = 0 if rng.random() < 0.3 else rng.choice([-1, 1]) * rng.randint(1, 2 ** rng.randint(1, 20))
-        elif k < 0.8:
-            unit = rng.choice(['CODE TABLE', 'CODE TABLE', 'FLAG TABLE'])
-            width = rng.randint(1, 16)
-            scale = rng.choice([0, 0, 0, 1, -1])
-            ref = rng.choice([0, 0, 0, 5, -5])
-        else:
-            unit = 'CCITT IA5'
-            width = 8 * rng.randint(1, 10)
-            scale, ref = 0, 0
-        quirky = rng.random() < 0.08
-        self.quirks = self.quirks or quirky
-        return i, [mk_name(rng, quirky), unit, scale, ref, width]
+        return i, self.new_attrs(self.eb.get(i))
 
     def simple_item(self, depth):
         """one id: an element or an ordinary sequence"""
         rng = self.rng
         r = rng.random()
+        if self.focus and rng.random() < 0.65:
+            cand = [i for i in sorted(self.focus)
+                    if (i in self.eb or i in self.fb or i in self.std_seq) or
+                    (i in self.ed and i not in self.bare and self.depth.get(i, 0) < depth and not self.incomplete(i))]
+            if cand:
+                return rng.choice(cand)
         news = sorted(self.eb)
-        seqs = [s for s in sorted(self.ed) if s not in self.bare and self.depth.get(s, 0) < depth]
+        seqs = [s for s in sorted(self.ed) if s not in self.bare and self.depth.get(s, 0) < depth and not self.incomplete(s)]
         if r < 0.55 and news:
             return rng.choice(news)
         if r < 0.70 and seqs:
@@ -179,9 +275,9 @@ class StreamGen(object):
         if r < 0.76 and self.std_seq:
             return rng.choice(self.std_seq)
         if r < 0.90:
-            return rng.choice(self.std_num)
+            return rng.choice(self.pool_num if rng.random() < 0.7 else self.std_num)
         if r < 0.96:
-            return rng.choice(self.std_code)
+            return rng.choice(self.pool_code if rng.random() < 0.7 else self.std_code)
         return rng.choice(self.std_str)
 
     def item(self, depth, reps=True):
@@ -201,66 +297,198 @@ class StreamGen(object):
             return [100000 + 1000 * x, rng.choice([31001, 31001, 31002, 31000])] + members
         return [self.simple_item(depth)]
 
-    def new_sequence(self):
+    def members_of_len(self, depth, n):
+        """a member list of exactly n ids (whole items only)"""
+        ms = []
+        while len(ms) < n:
+            it = self.item(depth)
+            if len(ms) + len(it) > n:
+                it = [self.simple_item(depth)]
+            ms.extend(it)
+        return ms
+
+    def new_sequence(self, sid=None, allow_bare=True, n_members=None):
         rng = self.rng
         r = rng.random()
         redefine = [s for s in sorted(self.ed)]
-        if r < 0.15 and redefine:
-            sid = rng.choice(redefine)
-        else:
-            sid = 300000 + rng.randint(48, 63) * 1000 + rng.randint(0, 255)
-        # never make a sequence (transitively) contain itself: members only of smaller depth
+        if sid is None:
+            if r < 0.15 and redefine:
+                sid = rng.choice(redefine)
+            else:
+                sid = 300000 + rng.randint(48, 63) * 1000 + rng.randint(0, 255)
+        # never make a sequence (transitively) contain itself: members only of smaller depth; a redefined
+        # sequence keeps its depth rank
         d = self.depth.get(sid)
         if d is None:
             d = rng.randint(1, 3)
-        users_ok = True
-        if sid in self.ed:
-            # keep nesting acyclic: a redefined sequence keeps its depth rank
-            users_ok = True
-        if rng.random() < 0.22 and sid not in self.ed:
+        old = self.ed.get(sid)
+        if allow_bare and n_members is None and rng.random() < 0.22 and sid not in self.ed and sid not in self.pend_d:
             ms = [101000, rng.choice([31001, 31002, 31000])] if rng.random() < 0.7 else [101000 + rng.randint(1, 3)]
             self.bare.add(sid)
             self.depth[sid] = 0
             return sid, [mk_name(rng, False), ms]
-        was_bare = sid in self.bare
-        if was_bare:
+        if sid in self.bare:
             # a replication-only sequence stays one (its users rely on the following descriptor)
-            ms = [101000, rng.choice([31001, 31002])]
+            if len(old[1]) == 2:
+                ms = [101000, rng.choice([f for f in (31001, 31002) if f != old[1][1]] if n_members or rng.random() < 0.7 else [31001, 31002])]
+            else:
+                ms = [101000 + rng.choice([y for y in (1, 2, 3, 4) if 101000 + y != old[1][0]])]
             return sid, [mk_name(rng, False), ms]
-        ms = []
-        for _ in range(rng.randint(1, 5)):
-            ms.extend(self.item(d))
         self.depth[sid] = d
-        return sid, [mk_name(rng, False), ms[:60]]
+        for _ in range(8):
+            if n_members is not None:
+                ms = self.members_of_len(d, n_members)
+            else:
+                ms = []
+                for _ in range(rng.randint(1, 5)):
+                    ms.extend(self.item(d))
+                ms = ms[:60]
+            if old is None or ms != old[1]:
+                break
+        return sid, [mk_name(rng, False), ms]
 
-    def def_message(self):
+    def forward_sequence(self):
+        """a new sequence that mentions ids which only a LATER definition message defines"""
+        rng = self.rng
+        sid = self.fresh_sequence_id()
+        d = rng.randint(2, 3)
+        self.depth[sid] = d
+        items = [self.item(d) for _ in range(rng.randint(0, 2))]
+        for _ in range(rng.randint(1, 2)):
+            if rng.random() < 0.75:
+                p = self.fresh_element_id()
+                self.pend_b.add(p)
+            else:
+                p = self.fresh_sequence_id()
+                self.pend_d.add(p)
+                self.depth[p] = d - 1
+            # between whole items only (never between a replication descriptor and its factor / members)
+            items.insert(rng.randint(0, len(items)), [p])
+        return sid, [mk_name(rng, False), [i for it in items for i in it]]
+
+    MODES = ('add', 'redef', 'redef+add', 'same-shape', 'repeat', 'std', 'forward', 'complete', 'empty')
+
+    def def_message(self, mode='add'):
+        """One definition message.
+        add         1..12 elements (most new; some redefine in-stream / bundled / local ones), 1..5 sequences
+        redef       ONLY ids already defined in stream, with other attributes / members; nothing new
+        redef+add   both
+        same-shape  exactly the ids of an earlier definition message, in the same order, with other attributes and
+                    member lists of the same lengths (the message has the same length in bytes)
+        repeat      an earlier definition message again, identically
+        std         only redefinitions of bundled (standard / local table) elements
+        forward     as add, plus sequences over ids that the NEXT message (complete) defines
+        complete    defines every pending id (plus some new elements)
+        empty       no entries at all
+        """
         rng = self.rng
         a = [['%03d' % rng.randint(0, 255), mk_name(rng, False)[:32].ljust(32), mk_name(rng, False)[:32].ljust(32)]
              for _ in range(rng.choice([0, 1, 1, 2]))]
-        b_raw, d_raw = [], []
-        for _ in range(rng.randint(1, 12)):
-            i, e = self.new_element()
+        bs, ds = [], []
+
+        def add_b(i, e):
             self.eb[i] = e
+            self.pend_b.discard(i)
+            bs.append((i, e))
+
+        def add_d(sid, e):
+            self.ed[sid] = e
+            self.pend_d.discard(sid)
+            ds.append((sid, e))
+
+        if mode in ('repeat', 'same-shape') and not self.history:
+            mode = 'add'
+        if mode in ('redef', 'redef+add') and not (self.eb or self.ed):
+            mode = 'add'
+        if mode == 'repeat':
+            h = rng.choice(self.history[-2:])
+            a = copy.deepcopy(h['a'])
+            for i, e in h['b']:
+                add_b(i, copy.deepcopy(e))
+            for sid, e in h['d']:
+                add_d(sid, copy.deepcopy(e))
+            raw = copy.deepcopy(h['raw'])
+            self.history.append({'a': a, 'b': bs, 'd': ds, 'raw': raw, 'mode': mode})
+            return dict(raw, mode=mode)
+        if mode == 'same-shape':
+            h = rng.choice(self.history[-2:])
+            a = copy.deepcopy(h['a'])
+            for i, _ in h['b']:
+                add_b(i, self.new_attrs(self.eb.get(i)))
+            for sid, e in h['d']:
+                add_d(sid, self.new_sequence(sid, allow_bare=False, n_members=len(e[1]))[1])
+        if mode in ('redef', 'redef+add'):
+            nb = rng.randint(0, min(4, len(self.eb)))
+            nd = rng.randint(0 if nb else 1, min(3, len(self.ed))) if self.ed else 0
+            if nb + nd == 0:
+                nb = 1
+            for i in rng.sample(sorted(self.eb), nb):
+                add_b(i, self.new_attrs(self.eb[i]))
+            for sid in rng.sample(sorted(self.ed), nd):
+                add_d(sid, self.new_sequence(sid)[1])
+        if mode == 'std':
+            for _ in range(rng.randint(1, 3)):
+                i = self.std_target() if not self.local_b or rng.random() < 0.7 else rng.choice(self.local_b)
+                add_b(i, self.new_attrs(self.eb.get(i)))
+        if mode == 'complete':
+            for i in sorted(self.pend_b):
+                add_b(i, self.new_attrs())
+            for sid in sorted(self.pend_d):
+                add_d(sid, self.new_sequence(sid, allow_bare=False)[1])
+        if mode in ('add', 'forward'):
+            for _ in range(rng.randint(1, 12)):
+                add_b(*self.new_element())
+            for _ in range(rng.randint(1, 5)):
+                add_d(*self.new_sequence())
+        if mode in ('redef+add', 'complete'):
+            for _ in range(rng.randint(0 if mode == 'complete' else 1, 4)):
+                add_b(self.fresh_element_id(), self.new_attrs())
+            for _ in range(rng.randint(0, 2)):
+                add_d(*self.new_sequence(self.fresh_sequence_id()))
+        if mode == 'forward':
+            for _ in range(rng.randint(1, 2)):
+                add_d(*self.forward_sequence())
+        b_raw, d_raw = [], []
+        for i, e in bs:
             name, unit, scale, ref, width = e
             s = '%06d' % i
             b_raw.append([s[0], s[1:3], s[3:], name[:32].ljust(32), name[32:].ljust(32), unit.ljust(24),
                           '+' if scale >= 0 else '-', fmt_int(rng, scale, 3),
                           '+' if ref >= 0 else '-', fmt_int(rng, ref, 10), fmt_int(rng, width, 3)])
-        for _ in range(rng.randint(1, 5)):
-            sid, e = self.new_sequence()
-            # truncation of a member list must not cut a replication group: regenerate plainly if it did
-            self.ed[sid] = e
+        for sid, e in ds:
             s = '%06d' % sid
             d_raw.append([s[0], s[1:3], s[3:], e[0].ljust(64), ['%06d' % m for m in e[1]]])
-        return {'kind': 'def', 'a': a, 'b': b_raw, 'd': d_raw}
+        raw = {'kind': 'def', 'a': a, 'b': b_raw, 'd': d_raw}
+        self.history.append({'a': a, 'b': bs, 'd': ds, 'raw': raw, 'mode': mode})
+        return dict(copy.deepcopy(raw), mode=mode)
 
-    def data_message(self, ids=None):
+    def affected(self):
+        """ids the last definition message (re)defined, and the in-stream sequences that reach them"""
+        if not self.history:
+            return set()
+        h = self.history[-1]
+        ids = set(i for i, _ in h['b']) | set(s for s, _ in h['d'])
+        out = set(ids)
+        for s in self.ed:
+            if self.closure([s]) & ids:
+                out.add(s)
+        for s in self.std_seq:
+            if self.closure([s]) & ids:
+                out.add(s)
+        return out
+
+    def data_message(self, ids=None, focus=None):
         rng = self.rng
         if ids is None:
+            self.focus = focus
             ids = []
             for _ in range(rng.randint(1, 4)):
                 ids.extend(self.item(4))
+            self.focus = None
         return {'kind': 'data', 'ids': ids, 'n': rng.randint(1, 3), 'comp': rng.random() < 0.35, 'vals': None}
+
+    def usable(self, ids):
+        return not (self.closure(ids) & (self.pend_b | self.pend_d))
 
     def expected(self):
         """the extra entries as the implementation should hold them after the definitions so far"""
@@ -298,31 +526,71 @@ def plain_ids(rng, version, mentioned, fd):
     return [1001, 1002]
 
 
+LATER_MODES = ['redef', 'redef', 'redef', 'same-shape', 'same-shape', 'redef+add', 'redef+add', 'add', 'repeat',
+               'std', 'std', 'forward', 'empty']
+
+
+def plan_history(rng):
+    """2..4 definition messages; data messages between and after them"""
+    n_defs = rng.randint(2, 4)
+    modes = ['forward' if rng.random() < 0.15 else 'add']
+    while len(modes) < n_defs:
+        if modes[-1] == 'forward':
+            modes.append('complete')
+            continue
+        m = rng.choice(LATER_MODES)
+        if m == 'forward' and len(modes) >= n_defs - 1:
+            continue
+        modes.append(m)
+    plan = []
+    for k, m in enumerate(modes):
+        plan.append(('def', m))
+        last = k == len(modes) - 1
+        for _ in range(rng.randint(1, 3) if last else rng.choice([0, 1, 1, 2])):
+            plan.append(('data', None))
+    return plan
+
+
 def gen_stream(rng, index):
     version = rng.choice([13, 13, 33, 25])
     local = rng.random() < 0.3
     g = StreamGen(rng, version, local)
-    shape = 'interleaved' if rng.random() < 0.3 else 'defs-then-data'
+    r = rng.random()
+    shape = 'history' if r < 0.6 else 'interleaved' if r < 0.72 else 'defs-then-data'
     msgs = []
     epochs = []       # expected extras before each message
-    n_defs = rng.randint(1, 3)
-    n_data = rng.randint(1, 4)
-    if shape == 'defs-then-data':
-        plan = ['def'] * n_defs + ['data'] * n_data
+    if shape == 'history':
+        plan = plan_history(rng)
     else:
-        plan = ['def', 'data']
-        for _ in range(n_defs - 1):
-            plan += ['def', 'data']
-        plan += ['data'] * max(0, n_data - n_defs)
-    last_ids = None
-    for k in plan:
+        n_defs = rng.randint(1, 3)
+        n_data = rng.randint(1, 4)
+        if shape == 'defs-then-data':
+            plan = [('def', 'add')] * n_defs + [('data', None)] * n_data
+        else:
+            plan = [('def', 'add'), ('data', None)] * n_defs + [('data', None)] * max(0, n_data - n_defs)
+    affected = set()
+    since_def = 0
+    for k, mode in plan:
         epochs.append(g.expected())
         if k == 'def':
-            msgs.append(g.def_message())
+            msgs.append(g.def_message(mode))
+            affected = g.affected()
+            since_def = 0
         else:
-            reuse = last_ids is not None and shape == 'interleaved' and rng.random() < 0.6
-            m = g.data_message(last_ids if reuse else None)
-            last_ids = m['ids']
+            # the same section 3 as an earlier data message (preferably one that reaches a descriptor the last
+            # definition message changed): same compiled-template key apart from the generation
+            old = [t for t in g.templates if g.usable(t)]
+            hit = [t for t in old if g.closure(t) & affected]
+            ids = None
+            if shape != 'defs-then-data':
+                if hit and since_def == 0 and rng.random() < 0.6:
+                    ids = list(rng.choice(hit))
+                elif old and rng.random() < 0.2:
+                    ids = list(rng.choice(old))
+            m = g.data_message(ids, focus=affected if shape == 'history' else None)
+            if m['ids'] not in g.templates:
+                g.templates.append(list(m['ids']))
+            since_def += 1
             msgs.append(m)
     # one message over unmentioned descriptors
     epochs.append(g.expected())
@@ -331,7 +599,8 @@ def gen_stream(rng, index):
     m['plain'] = True
     msgs.append(m)
     return {'index': index, 'version': version, 'local': local, 'edition': rng.choice([3, 3, 4]), 'shape': shape,
-            'msgs': msgs, 'epochs': epochs, 'quirks': g.quirks, 'bare': sorted(g.bare)}
+            'msgs': msgs, 'epochs': epochs, 'quirks': g.quirks, 'bare': sorted(g.bare),
+            'compiled_max': rng.choice([1, 2, 16, 16])}
 
 
 # ---------------------------------------------------------------------------------------------
@@ -542,10 +811,13 @@ def eval_streams(descs, drv, scratch_root, stage_compiled=True):
         # encode
         enc = []
         ok = True
+        in_cache = None       # extras of the cache the encoder currently works with (a reload costs ~50 ms)
         for k, m in enumerate(desc['msgs']):
             eb, ed = desc['epochs'][k]
             if m['kind'] == 'def':
-                reset_cache()
+                if in_cache != ({}, {}):
+                    reset_cache()
+                    in_cache = ({}, {})
                 js = C.make_message_json(DEF_IDS, [def_values(m)], False, edition=desc['edition'],
                                          overrides=sec_overrides(desc, 11))
             else:
@@ -553,7 +825,9 @@ def eval_streams(descs, drv, scratch_root, stage_compiled=True):
                     cnt('data-message-without-values:' + str(m.get('gen_err')))
                     enc.append(None)
                     continue
-                reset_cache(eb, ed)
+                if in_cache != (eb, ed):
+                    reset_cache(eb, ed)
+                    in_cache = (eb, ed)
                 js = C.make_message_json(m['ids'], P.py_inputs(m['vals']), m['comp'], edition=desc['edition'],
                                          overrides=sec_overrides(desc, 2))
             st, b, _ = C.impl_encode(js)
@@ -577,6 +851,20 @@ def eval_streams(descs, drv, scratch_root, stage_compiled=True):
             kind = desc['msgs'][idx[bad]]['kind'] if bad < len(idx) else '?'
             viol('stream decode stopped at message %d (%s message): %s' % (bad, kind, tag), 'stream', error=str(tag), kind=kind)
             obs = [o for o in obs if isinstance(o, dict)]
+        # the model runs the WHOLE stream itself (TableDef.specRun): file tables of the stream's table group, its own
+        # extraction from the definition messages, every message decoded with the definitions before it
+        if obs and len(obs) == len(idx):
+            reqs.append(tables_req(desc, {}, {}))
+            checks.append(None)
+            smsgs = []
+            for k in idx:
+                nsub, comp, ids = P.parse_section3(enc[k])
+                smsgs.append({'ids': ids, 'compressed': comp, 'n': nsub, 'bits': C.data_bits(enc[k]),
+                              'def': desc['msgs'][k]['kind'] == 'def'})
+            use_c = desc['index'] % 3 == 0
+            reqs.append({'op': 'tabledef-stream', 'msgs': smsgs, 'compiled': use_c})
+            checks.append((res, 'model-stream', (idx, obs)))
+            cnt('model-stream-runs' + (':compiled' if use_c else ''))
         last_ep = None
         epoch_dirs = {}
         for o, k in zip(obs, idx):
@@ -601,6 +889,7 @@ def eval_streams(descs, drv, scratch_root, stage_compiled=True):
                 checks.append((res, 'src-tree', (k, o, has_extra)))
             if m['kind'] == 'def':
                 cnt('definition-messages')
+                cnt('def-mode:' + m.get('mode', 'add'))
                 cnt('b-entries', len(m['b']))
                 cnt('d-entries', len(m['d']))
                 reqs.append({'op': 'tabledef-extract', 'ids': ids, 'vals': [C.from_py_exact(v) for v in o['subs'][0]['v']]})
@@ -649,8 +938,9 @@ def eval_streams(descs, drv, scratch_root, stage_compiled=True):
             shutil.rmtree(d, ignore_errors=True)
         # compiled-template decoder on the same stream
         if stage_compiled and obs and len(obs) == len(idx):
-            obs_c = run_in_stream(stream, compiled=16)
-            cnt('stream-with-compiled-templates')
+            cmax = desc.get('compiled_max', 16)
+            obs_c = run_in_stream(stream, compiled=cmax)
+            cnt('stream-with-compiled-templates:cache_max=%d' % cmax)
             a = [o['subs'] if isinstance(o, dict) else o for o in obs_c]
             b = [o['subs'] for o in obs]
             if not same_obs(a, b):
@@ -669,6 +959,23 @@ def eval_streams(descs, drv, scratch_root, stage_compiled=True):
             if why:
                 res['viol'].append(('message %d (%s): model vs implementation: %s' % (k, res['desc']['msgs'][k]['kind'], why),
                                     {'stage': 'model-decode', 'kind': res['desc']['msgs'][k]['kind']}))
+        elif kind == 'model-stream':
+            idx, obs = payload
+            outs = r['out']
+            for j, (k, o) in enumerate(zip(idx, obs)):
+                mk = res['desc']['msgs'][k]
+                if j >= len(outs):
+                    res['viol'].append(('message %d (%s): the model\'s run of the stream ended at message %d: %s' % (
+                        k, mk['kind'], idx[len(outs) - 1] if outs else -1, outs[-1] if outs else 'no output'),
+                        {'stage': 'model-stream', 'kind': 'short'}))
+                    break
+                why = P.compare_decode(('ok', o['subs'], 0), outs[j] if o['subs'] else dict(outs[j], rest=0))
+                if why:
+                    res['viol'].append((
+                        'message %d (%s%s): stream run by the model (definitions before it in force) vs implementation: %s' % (
+                            k, mk['kind'], ' ' + mk.get('mode', '') if mk['kind'] == 'def' else '', why),
+                        {'stage': 'model-stream', 'kind': mk['kind']}))
+                    break
         elif kind == 'tree':
             k, o = payload
             mt = r.get('tree', 'err:' + r.get('err', ''))
@@ -930,8 +1237,8 @@ def run(ctx):
         if why:
             ctx.violation(why, {'variant': c}, signature={'stage': 'variant', 'kind': c['kind']})
     # (c) streams
-    count = 150 if ctx.tier == 'quick' else 3000
-    step = 10 if ctx.tier == 'quick' else 50
+    count = 240 if ctx.tier == 'quick' else 3000
+    step = 5 if ctx.tier == 'quick' else 50
     tasks = [(ctx.seed, lo, min(count, lo + step), True) for lo in range(0, count, step)]
     with multiprocessing.Pool(min(16, os.cpu_count() or 1)) as pool:
         chunks = pool.map(work_chunk, tasks, chunksize=1)
